@@ -38,6 +38,8 @@ type Prog struct {
 	NAll           int
 	allFuncs       map[*ssa.Function]bool
 	Inlined        []Inlined
+	RenamedFuncs   []Renamed
+	renamed        map[string]*ssa.Function
 	inlinedCallees map[*ssa.Function]bool
 }
 
@@ -119,6 +121,7 @@ func Load(opt Options) (*Prog, error) {
 		_ = os.WriteFile(dump, []byte("# module functions of the reference tree; functions not listed here are inlined into their callers (see inline.go)\n"+strings.Join(names, "\n")+"\n"), 0o644)
 	} else if os.Getenv("DCVERIF_NO_INLINE") == "" {
 		all := ssautil.AllFunctions(prog)
+		p.RenamedFuncs = p.detectRenames(all)
 		p.Inlined = p.InlineNewFunctions(all)
 		ssax.ParamNames = p.CanonicalParamNames(all)
 	}
@@ -168,6 +171,20 @@ func (p *Prog) SSAPkg(rel string) *ssa.Package {
 // Func resolves a function or method by (module-relative package, receiver type name or "", name).
 // The receiver may be given with or without '*'; methods on both T and *T are searched.
 func (p *Prog) Func(rel, recv, name string) *ssa.Function {
+	if f := p.funcByName(rel, recv, name); f != nil {
+		return f
+	}
+	// a baseline function that lives on under another name (see detectRenames)
+	r := strings.TrimPrefix(recv, "*")
+	for _, k := range []string{rel + "." + name, "(*" + rel + "." + r + ")." + name, "(" + rel + "." + r + ")." + name} {
+		if f := p.renamed[k]; f != nil {
+			return f
+		}
+	}
+	return nil
+}
+
+func (p *Prog) funcByName(rel, recv, name string) *ssa.Function {
 	sp := p.SSAPkg(rel)
 	if sp == nil {
 		return nil
